@@ -266,6 +266,42 @@ def replay_file(pid, path):
     return 1
 
 
+def _digest_block(pid, tier, seed, lo, hi):
+    prop = _load_prop(pid)
+    out = {}
+    for idx in range(lo, hi):
+        rng = random.Random(unit_seed(seed, idx))
+        ds = []
+        nv = 0
+        for scn in prop.gen(rng, idx, tier):
+            scn.setdefault("property", pid)
+            res = prop.run(scn)
+            ds.append(res.digest)
+            nv += len(res.violations or ())
+        out[idx] = [hashlib.sha256("".join(ds).encode()).hexdigest(), len(ds), nv]
+    return out
+
+
+def digests_mode(pid, args):
+    units = args.units or 32
+    workers = args.workers or 1
+    out = {}
+    if workers == 1:
+        out = _digest_block(pid, args.tier, args.seed, 0, units)
+    else:
+        ctx = multiprocessing.get_context("fork")
+        step = max(1, units // (workers * 2))
+        with ProcessPoolExecutor(max_workers=workers, mp_context=ctx) as ex:
+            futs = [ex.submit(_digest_block, pid, args.tier, args.seed, lo, min(lo + step, units))
+                    for lo in range(0, units, step)]
+            for f in futs:
+                out.update(f.result())
+    with open(args.digests, "w") as f:
+        json.dump({str(k): v for k, v in sorted(out.items())}, f)
+    print("digests: %d units -> %s" % (len(out), args.digests))
+    return 0
+
+
 def _jsonable(v):
     return json.loads(json.dumps(v, default=repr))
 
@@ -281,12 +317,15 @@ def main(argv=None):
     ap.add_argument("--replay")
     ap.add_argument("--no-evidence", action="store_true")
     ap.add_argument("--dump-unit", type=int, default=None)
+    ap.add_argument("--digests", help="write {unit: [scenario digests, violations]} for the first --units units to this file and exit")
     args = ap.parse_args(argv)
     pid = args.prop.upper()
     sys.path.insert(0, VERIF)
     prop = _load_prop(pid)
     if args.replay:
         return replay_file(pid, args.replay)
+    if args.digests:
+        return digests_mode(pid, args)
     if args.dump_unit is not None:
         rng = random.Random(unit_seed(args.seed, args.dump_unit))
         for scn in prop.gen(rng, args.dump_unit, args.tier):
